@@ -482,10 +482,13 @@ def main(chk):
     chk.explanation = (
         'Solver-based checking of the ban-list logic executed from MIR: ConnectionPool::ban and try_unban (with is_banned/unban) on shards '
         'of 0-3 replicas with or without a primary, for every subset of banned servers, with symbolic ban reasons (incl. AdminBan durations), '
-        'timestamps, ban_time and clock readings, against the rules stated in the property.')
+        'timestamps, ban_time and clock readings, against the rules stated in the property. (O3) ConnectionPool::get with solver-chosen checkout / health-check outcomes: '
+        'who gets banned, who gets tried next, and that a connection whose health check failed is never handed out. (O4) the banned-host lookup used by the admin BAN/UNBAN '
+        'commands. (H, failover family) Client::handle on pools with replicas that fail or time out: the failing replica is banned, the primary never is, the next request '
+        'avoids it.')
     chk.assumptions += [
         'chrono::Utc::now / NaiveDateTime::timestamp modelled as symbolic non-decreasing seconds; parking_lot RwLock single-threaded',
-        'bans issued from Client::handle (send/receive failures, statement timeout), admin console parsing and load-balancing fairness are outside the claim',
+        'admin console command parsing and load-balancing fairness (rand shuffle modelled as an arbitrary permutation) are outside the claim',
     ]
     prog = chk.program('on')
     tasks = [(o1_ban, (prog,))]
